@@ -346,6 +346,28 @@ func runC17(r *mon.Run) {
 				_ = k.PublicKey()
 			}
 		}, vars: 1},
+		// process state: a fixed key K0 was imported just before.  K0 is itself one of the
+		// secrets, so a fast path / cache keyed on "same secret as last time" takes a different
+		// path for exactly that secret (a branch on secret equality).
+		{name: "NewPrivateKey/after-importing-K0", prep: func(s c17Secret, v int) func() {
+			k0 := b32(mustHexBig("5555555555555555555555555555555555555555555555555555555555555555"))
+			bts := b32(s.v)
+			return func() {
+				switch v {
+				case 0:
+					_, _ = secec.NewPrivateKey(k0)
+					k, _ := secec.NewPrivateKey(bts)
+					_ = k.PublicKey()
+				case 1:
+					_, _ = secec.NewPrivateKey(k0)
+					_, _ = bitcoin.NewSchnorrPrivateKey(bts)
+				default:
+					_, _ = bitcoin.NewSchnorrPrivateKey(k0)
+					k, _ := secec.NewPrivateKeyFromScalar(scalarFromBig(s.v))
+					_ = k.PublicKey()
+				}
+			}
+		}, vars: 3},
 		{name: "NewPrivateKeyFromScalar", prep: func(s c17Secret, v int) func() {
 			a := scalarFromBig(s.v)
 			return func() { _, _ = secec.NewPrivateKeyFromScalar(a) }
